@@ -5,6 +5,7 @@ import (
 	"go/types"
 	"reflect"
 	"strings"
+	"unicode/utf8"
 
 	"golang.org/x/tools/go/ssa"
 
@@ -45,6 +46,78 @@ func stripPtr(t types.Type) types.Type {
 	}
 }
 
+// utf8Valid: is the string term valid UTF-8? Decided structurally: constants by inspection; solver variables
+// (vrt.Str) are valid by the harness convention (the properties quantify over valid-UTF-8 strings); decimal
+// renderings are valid; a concatenation is valid when its parts are; a string converted from arbitrary bytes
+// is valid exactly when its bytes are well-formed UTF-8 (exact formula); anything else is taken as valid (no
+// alarm from what is not modelled).
+func utf8Valid(t *term.Term) *term.Term {
+	switch t.Op {
+	case term.OpConst:
+		return term.BoolC(utf8.ValidString(t.S))
+	case term.OpSConcat:
+		return term.And(utf8Valid(t.Args[0]), utf8Valid(t.Args[1]))
+	case term.OpIte:
+		return term.Ite(t.Args[0], utf8Valid(t.Args[1]), utf8Valid(t.Args[2]))
+	case term.OpUF:
+		if strings.HasPrefix(t.S, "str_of_bytes_") && len(t.Args) > 0 {
+			return utf8ValidBytes(t.Args)
+		}
+	}
+	return term.True
+}
+
+// utf8ValidBytes is the exact UTF-8 well-formedness condition (Unicode table 3-7) of a byte string of concrete
+// length, as a formula over its bytes.
+func utf8ValidBytes(b []*term.Term) *term.Term {
+	n := len(b)
+	in := func(x *term.Term, lo, hi uint64) *term.Term {
+		return term.And(term.BVCmp(term.OpULe, term.BVC(8, lo), x), term.BVCmp(term.OpULe, x, term.BVC(8, hi)))
+	}
+	cont := func(i int) *term.Term {
+		if i >= n {
+			return term.False
+		}
+		return in(b[i], 0x80, 0xBF)
+	}
+	at := func(i int, lo, hi uint64) *term.Term {
+		if i >= n {
+			return term.False
+		}
+		return in(b[i], lo, hi)
+	}
+	valid := make([]*term.Term, n+5)
+	for i := n; i < n+5; i++ {
+		valid[i] = term.BoolC(i == n)
+	}
+	for i := n - 1; i >= 0; i-- {
+		x := b[i]
+		valid[i] = term.Or(
+			term.And(in(x, 0x00, 0x7F), valid[i+1]),
+			term.And(in(x, 0xC2, 0xDF), cont(i+1), valid[i+2]),
+			term.And(in(x, 0xE0, 0xE0), at(i+1, 0xA0, 0xBF), cont(i+2), valid[i+3]),
+			term.And(term.Or(in(x, 0xE1, 0xEC), in(x, 0xEE, 0xEF)), cont(i+1), cont(i+2), valid[i+3]),
+			term.And(in(x, 0xED, 0xED), at(i+1, 0x80, 0x9F), cont(i+2), valid[i+3]),
+			term.And(in(x, 0xF0, 0xF0), at(i+1, 0x90, 0xBF), cont(i+2), cont(i+3), valid[i+4]),
+			term.And(in(x, 0xF1, 0xF3), cont(i+1), cont(i+2), cont(i+3), valid[i+4]),
+			term.And(in(x, 0xF4, 0xF4), at(i+1, 0x80, 0x8F), cont(i+2), cont(i+3), valid[i+4]),
+		)
+	}
+	return valid[0]
+}
+
+// jsonString: what a Go string becomes on its way through encoding/json: unchanged when it is valid UTF-8,
+// otherwise some other string (invalid sequences are replaced by U+FFFD).
+func (e *Engine) jsonString(st *State, t *term.Term) *term.Term {
+	ok := utf8Valid(t)
+	if ok.IsTrue() {
+		return t
+	}
+	m := term.UF("json_coerced", term.Str, t)
+	st.PC = term.And(st.PC, term.Or(ok, term.Not(term.Eq(m, t))))
+	return term.Ite(ok, t, m)
+}
+
 func (e *Engine) snapshot(st *State, v Value, t types.Type) Value {
 	v = e.pick(st, v)
 	if specialLeaves(t) >= 0 {
@@ -52,6 +125,11 @@ func (e *Engine) snapshot(st *State, v Value, t types.Type) Value {
 	}
 	switch u := t.Underlying().(type) {
 	case *types.Basic:
+		if e.snapCodec == "json" && u.Info()&types.IsString != 0 {
+			if tv, ok := v.(*term.Term); ok {
+				return e.jsonString(st, tv)
+			}
+		}
 		return v
 	case *types.Pointer:
 		p := v.(Ptr)
@@ -246,7 +324,9 @@ func (e *Engine) marshalToken(st *State, th *Thread, v Value, codec string) Valu
 		val = e.load(st, pv, p.Elem())
 		t = p.Elem()
 	}
+	e.snapCodec = codec
 	snap := &Snap{T: t, V: e.snapshot(st, val, t), Codec: codec}
+	e.snapCodec = ""
 	id := e.newObjID(st, th, codec+".Marshal")
 	tok := term.Var(fmt.Sprintf("token!%d", id), term.BV(8))
 	st.setObj(id, &Object{Kind: OMem, Cells: []Value{tok}, Site: codec + " token", Snap: snap, ep: st.ep})
